@@ -12,6 +12,9 @@ import (
 type Iter struct {
 	err  error
 	msgC chan xml.TokenReader
+	// done is closed (by the handler's remove) when the query is no longer
+	// tracked: the iteration is over and nothing more is handed to it.
+	done chan struct{}
 	cur  xml.TokenReader
 	h    *Handler
 	id   string
@@ -20,9 +23,17 @@ type Iter struct {
 
 // Next advances the iterator
 func (i *Iter) Next() bool {
-	var ok bool
-	i.cur, ok = <-i.msgC
-	return ok
+	if i.done == nil {
+		// An iterator that was never tracked (it only carries an error).
+		return false
+	}
+	select {
+	case i.cur = <-i.msgC:
+		return true
+	case <-i.done:
+		i.cur = nil
+		return false
+	}
 }
 
 // Current returns the current message stream read from the iterator.
